@@ -24,7 +24,7 @@ from harness.core import st
 from harness.oracles import snapshot
 
 ID = "C11"
-RULE = ("11 base types x all wrapper chains of length <= 2 x 6 positions + 6 'next to the bare type' positions (wrappers declared "
+RULE = ("11 base types x all wrapper chains of length <= 2 x 7 positions + 6 'next to the bare type' positions (wrappers declared "
         "in the defining or in another module; chains <= 2 for named bases, 1 otherwise) (exhaustive), chains of length 3 and random "
         "bases of U sampled; 9 inputs per program; root-position string / ForwardRef / bare-name-from-frame-depth forms; "
         "non-trivial = chain length >= 2, non-root position, or a non-object reference form; distinct by (base, chain, "
@@ -32,15 +32,15 @@ RULE = ("11 base types x all wrapper chains of length <= 2 x 6 positions + 6 'ne
 ASSUMPTIONS = ["Final only at the root and on class fields, ClassVar only at the root, NewType never directly over Optional/Union/Literal/TypedDict",
                "a partially qualified reference is not a resolvable reference and is not generated"]
 TECHNIQUE = "exhaustive enumeration of wrapper chains x positions + Hypothesis sampling; differential (metamorphic) oracle: routines for W(T) vs T on identical inputs, compared by class-exact snapshots"
-LEVEL_TEXT = ("All wrapper chains up to length 2 over 11 base types in 6 positions are enumerated on every run, longer chains and "
+LEVEL_TEXT = ("All wrapper chains up to length 2 over 11 base types in 7 positions are enumerated on every run, longer chains and "
               "random bases are sampled; each wrapped program is compared with the unwrapped one on valid, wire-form, corrupted "
               "and junk inputs through marshal, unmarshal and codec.")
 LEVEL_NOTE = "trusts that materialising both programs under identical module names makes class-exact snapshots comparable"
-EXHAUSTIVE_NOTE = "chains of length <= 2 x 11 bases x 6 positions, plus the 6 next-to-bare positions, complete on every run"
+EXHAUSTIVE_NOTE = "chains of length <= 2 x 11 bases x 7 positions, plus the 6 next-to-bare positions, complete on every run"
 
 S = U.S
 WRAPPERS = ["newtype", "alias", "stralias", "final", "classvar"]
-POSITIONS = ["root", "list", "dictval", "tuple", "union", "field"]
+POSITIONS = ["root", "list", "dictval", "tuple", "union", "field", "sigfield"]
 # the wrapped type *next to the bare type* (which the walk reaches first), the wrappers declared in the defining
 # module or in another module ("...x"): tuple[T, W], tuple[T, Union[W, None]], fields `a: T; x: W`
 POSITIONS2 = ["tuple2", "tuple2x", "union2", "union2x", "field2", "field2x"]
@@ -125,6 +125,10 @@ def embed(spec, position, base=None):
         return {"k": "tuple", "sp": "tuple", "a": [S("int"), spec]}
     if position == "union":
         return {"k": "optional", "sp": "Union", "a": [spec]}
+    if position == "sigfield":
+        # a class whose fields are only declared by the (text) annotations of its constructor's signature
+        return {"k": "class", "name": "Holder", "mod": 0, "flavour": "sigonly", "future": False,
+                "fields": [{"n": "x", "t": spec}, {"n": "y", "t": S("int"), "default": True}]}
     if position == "field":
         final = spec["k"] == "final"
         return {"k": "class", "name": "Holder", "mod": 0, "flavour": "dataclass", "future": False,
@@ -192,7 +196,7 @@ def outcomes(spec, tag, value_srcs, input_srcs, ref_form="object", bytes_in=None
                 issuer.__dict__[f"M{_i}"] = issuer.__dict__["Decoy"]
         if ref_form != "object":
             named = spec
-            mod = mat.modules[named["mod"]]
+            mod = mat.modules[named["mod"]] if "mod" in named else None
             if ref_form == "qualified-string":
                 T = f"{mod.__name__}.{named['name']}"
             elif ref_form == "nested-qualified-string":
@@ -204,6 +208,13 @@ def outcomes(spec, tag, value_srcs, input_srcs, ref_form="object", bytes_in=None
                 T = typing.ForwardRef(f"Ns.{named['name']}", module=mod.__name__)
             elif ref_form == "forwardref":
                 T = typing.ForwardRef(named["name"], module=mod.__name__)
+            elif ref_form == "arg-forwardref":
+                # the named wrapper given as a ForwardRef *object* among the arguments of the enclosing generic
+                pos = spec["k"]
+                inner = {"list": lambda: spec["a"][0], "dict": lambda: spec["a"][1], "tuple": lambda: spec["a"][1], "optional": lambda: spec["a"][0]}[pos]()
+                fr = typing.ForwardRef(inner["name"], module=mat.modules[inner["mod"]].__name__)
+                T = {"list": lambda: typing.List[fr], "dict": lambda: typing.Dict[str, fr], "tuple": lambda: typing.Tuple[int, fr],
+                     "optional": lambda: typing.Optional[fr]}[pos]()
             elif ref_form.startswith("bare"):
                 issuer = mod
                 T = named["name"]
@@ -302,12 +313,17 @@ def check_case(base_name, base, chain, position, data, col, counter):
     spec_t, spec_w = two_programs(base, chain, position)
     vals, ins = gen_inputs(spec_t, tag, data)
     ref_t, enc = outcomes(spec_t, tag, vals, ins)
+    for k_, o_ in ref_t.items():
+        if o_[0] == "harness":   # a generated source the harness itself could not evaluate: compared nothing
+            col.label(f"harness:source-not-evaluable:{o_[1]}")
     forms = ["object", "object@clash"]
     named_root = position == "root" and chain and chain[-1] in ("newtype", "alias", "stralias")
     if named_root:
         forms += ["qualified-string", "forwardref", "bare:0", "bare:1", "bare:2", "bare:5", "qualified-string@clash", "forwardref@clash",
                   "nested-qualified-string", "nested-forwardref",
                   "qualifier-string:ClassVar", "qualifier-string:Final"]
+    if position in ("list", "dictval", "tuple", "union") and chain and chain[-1] in ("newtype", "alias", "stralias"):
+        forms += ["arg-forwardref"]
     for form in forms:
         col.ev()
         col.label(f"position:{position}")
